@@ -123,8 +123,8 @@ Print Assumptions compiled_prefixes_legal.
    EDE 13), not a request-local failure, not a locally enforced work-limit
    SERVFAIL, and (if NOERROR) without a usable native AAAA *)
 Theorem synth_only_when :
-  forall cf q down work al,
-  x_path (serve cur cf q down work al) = PSynth \/ (x_aq (serve cur cf q down work al) = true /\ q_type q = type_aaaa) ->
+  forall cf q down work al cut,
+  x_path (serve cur cf q down work al cut) = PSynth \/ (x_aq (serve cur cf q down work al cut) = true /\ q_type q = type_aaaa) ->
   gates_open (compile cf) q = true /\ q_type q = type_aaaa
   /\ zone_excluded (compile cf) (lower (q_name q)) = false
   /\ exists m mark, down = Some (m, mark) /\ down_allows (compile cf) m mark work = true.
@@ -132,7 +132,7 @@ Proof. exact (synth_only_when_lem cur). Qed.
 Print Assumptions synth_only_when.
 
 Theorem synth_needs_a_records :
-  forall cf q down work al, x_path (serve cur cf q down work al) = PSynth ->
+  forall cf q down work al cut, x_path (serve cur cf q down work al cut) = PSynth ->
   exists ar, al = QResp ar /\ m_rcode ar = 0 /\ exists o t ip, In (RA o t ip) (m_answer ar).
 Proof. exact (synth_needs_a_answer cur). Qed.
 Print Assumptions synth_needs_a_records.
@@ -148,23 +148,24 @@ Print Assumptions dnssec_failure_codes_are_rfc8914.
    a legal configured prefix, owned like that A record, never an excluded
    IPv4 address under the well-known prefix; every allowed pair is present *)
 Theorem wkp_exclusions :
-  forall cf q m mark work ar r o t e,
-  x_path (serve cur cf q (Some (m, mark)) work (QResp ar)) = PSynth ->
-  x_reply (serve cur cf q (Some (m, mark)) work (QResp ar)) = Some r ->
+  forall cf q m mark work ar cut r o t e,
+  x_path (serve cur cf q (Some (m, mark)) work (QResp ar) cut) = PSynth ->
+  x_reply (serve cur cf q (Some (m, mark)) work (QResp ar) cut) = Some r ->
   In (RAAAA o t e) (r_answer r) ->
   (exists p ta ip v4,
       In p (c_prefixes (compile cf)) /\ In (RA o ta ip) (m_answer ar) /\ to4 ip = Some v4
       /\ e = embed (cp_net p) v4
       /\ (is_well_known (cp_net p) = true -> existsb (fun n => net_contains n v4) (c_excl_a (compile cf)) = false))
   /\ (forall o' ta ip, In (RA o' ta ip) (m_answer ar) -> t <= ta)
-  /\ t <= ttl_ceiling cur (m_ns m).
+  /\ t <= ttl_ceiling cur (m_ns m)
+  /\ (forall s, cut = Some s -> t <= s).
 Proof. exact (synthesised_aaaa_sound cur). Qed.
 Print Assumptions wkp_exclusions.
 
 Theorem synth_complete :
-  forall cf q m mark work ar r p o ta ip v4,
-  x_path (serve cur cf q (Some (m, mark)) work (QResp ar)) = PSynth ->
-  x_reply (serve cur cf q (Some (m, mark)) work (QResp ar)) = Some r ->
+  forall cf q m mark work ar cut r p o ta ip v4,
+  x_path (serve cur cf q (Some (m, mark)) work (QResp ar) cut) = PSynth ->
+  x_reply (serve cur cf q (Some (m, mark)) work (QResp ar) cut) = Some r ->
   In p (c_prefixes (compile cf)) -> In (RA o ta ip) (m_answer ar) -> to4 ip = Some v4 ->
   should_exclude_a (compile cf) v4 p = false ->
   exists t, In (RAAAA o t (embed (cp_net p) v4)) (r_answer r).
@@ -174,23 +175,47 @@ Print Assumptions synth_complete.
 (* ------------------------------------------------------------------ *)
 (* owner and TTL: every synthesised AAAA is owned by an A record's owner, its
    TTL is at most every A TTL and at most the AAAA negative TTL
-   min(SOA TTL, SOA MINIMUM) (600 s without SOA) — zero included *)
+   min(SOA TTL, SOA MINIMUM) (600 s without SOA) — zero included — and (since
+   af44539) at most the whole seconds left of the request tree's bound, when
+   the tree has one ([cut] = what synthesise reads off
+   ResponseMetaFrom(ctx).CutUntil(): None = unbounded) *)
 Theorem owner_and_ttl :
-  forall cf q m mark work ar r o t e,
-  x_path (serve cur cf q (Some (m, mark)) work (QResp ar)) = PSynth ->
-  x_reply (serve cur cf q (Some (m, mark)) work (QResp ar)) = Some r ->
+  forall cf q m mark work ar cut r o t e,
+  x_path (serve cur cf q (Some (m, mark)) work (QResp ar) cut) = PSynth ->
+  x_reply (serve cur cf q (Some (m, mark)) work (QResp ar) cut) = Some r ->
   In (RAAAA o t e) (r_answer r) ->
   (exists ta ip, In (RA o ta ip) (m_answer ar))
   /\ (forall o' ta ip, In (RA o' ta ip) (m_answer ar) -> t <= ta)
-  /\ t <= spec_negative_ttl m.
+  /\ t <= spec_negative_ttl m
+  /\ (forall s, cut = Some s -> t <= s).
 Proof. exact owner_and_ttl_now. Qed.
 Print Assumptions owner_and_ttl.
 
+(* the whole synthesised answer section — the copied alias chain as well —
+   stays within the tree's bound *)
+Theorem synth_reply_within_bound :
+  forall cf q m mark work ar s r x,
+  x_path (serve cur cf q (Some (m, mark)) work (QResp ar) (Some s)) = PSynth ->
+  x_reply (serve cur cf q (Some (m, mark)) work (QResp ar) (Some s)) = Some r ->
+  In x (r_answer r) -> rr_ttl x <= s.
+Proof. exact (synth_reply_within_bound_lem cur). Qed.
+Print Assumptions synth_reply_within_bound.
+
+(* the bound only ever lowers the TTL: the synthesised TTL is the minimum of
+   the bound and the TTL of an unbounded tree (= min over the A TTLs and the
+   negative TTL), so a bound beyond the negative TTL changes nothing *)
+Theorem synth_ttl_min_with_bound :
+  forall ns addrs s,
+  synth_ttl cur ns addrs (Some s) = N.min s (synth_ttl cur ns addrs None)
+  /\ (ttl_ceiling cur ns <= s -> synth_ttl cur ns addrs (Some s) = synth_ttl cur ns addrs None).
+Proof. exact (synth_ttl_min_with_bound_lem cur). Qed.
+Print Assumptions synth_ttl_min_with_bound.
+
 Theorem owner_follows_chain :
-  forall cf q m mark work ar r o t e,
+  forall cf q m mark work ar cut r o t e,
   (forall o' ta ip, In (RA o' ta ip) (m_answer ar) -> o' = chain_terminal 16 (q_name q) (m_answer ar)) ->
-  x_path (serve cur cf q (Some (m, mark)) work (QResp ar)) = PSynth ->
-  x_reply (serve cur cf q (Some (m, mark)) work (QResp ar)) = Some r ->
+  x_path (serve cur cf q (Some (m, mark)) work (QResp ar) cut) = PSynth ->
+  x_reply (serve cur cf q (Some (m, mark)) work (QResp ar) cut) = Some r ->
   In (RAAAA o t e) (r_answer r) ->
   o = chain_terminal 16 (q_name q) (m_answer ar).
 Proof. exact (owner_follows_chain_lem cur). Qed.
@@ -202,9 +227,9 @@ Print Assumptions owner_follows_chain.
    chain from the queried name to t, every synthesised AAAA is owned by t,
    and there is one *)
 Theorem owner_after_alias_chain :
-  forall cf q m mark work ar r t,
-  x_path (serve cur cf q (Some (m, mark)) work (QResp ar)) = PSynth ->
-  x_reply (serve cur cf q (Some (m, mark)) work (QResp ar)) = Some r ->
+  forall cf q m mark work ar cut r t,
+  x_path (serve cur cf q (Some (m, mark)) work (QResp ar) cut) = PSynth ->
+  x_reply (serve cur cf q (Some (m, mark)) work (QResp ar) cut) = Some r ->
   alias_chain (q_name q) (filter is_chain (m_answer ar)) t ->
   (forall o ta ip, In (RA o ta ip) (m_answer ar) -> o = t) ->
   alias_chain (q_name q) (filter is_chain (r_answer r)) t
@@ -217,7 +242,7 @@ Print Assumptions owner_after_alias_chain.
    pipeline Queryer -> sub-pipeline): synthesis needs a sub-query that was
    answered, without a request-local failure marker, NOERROR, with an A record *)
 Theorem wire_synth_needs_answered_sub_query :
-  forall cf q down s, x_path (serve_wire cf q down s) = PSynth ->
+  forall cf q down s cut, x_path (serve_wire cf q down s cut) = PSynth ->
   exists m mark, s = SubWrite m mark /\ mark <> 2 /\ mark <> 3 /\ m_rcode m = 0
                  /\ exists o t ip, In (RA o t ip) (m_answer m).
 Proof. exact Proofs_serve.wire_synth_needs_answered_sub_query. Qed.
@@ -228,7 +253,7 @@ Print Assumptions wire_synth_needs_answered_sub_query.
    synthesised, AAAA-filtered (passed on or fallen back to), built from the A
    response, a PTR translation or a local SERVFAIL — has AD clear *)
 Theorem never_ad :
-  forall cf q down work al r,
-  x_reply (serve cur cf q down work al) = Some r -> r_same r = false -> r_ad r = false.
+  forall cf q down work al cut r,
+  x_reply (serve cur cf q down work al cut) = Some r -> r_same r = false -> r_ad r = false.
 Proof. exact never_ad_now. Qed.
 Print Assumptions never_ad.
